@@ -143,13 +143,17 @@ pub mod proofs {
     fn public_key_codec<const N: usize>() {
         let b: [u8; N] = kani::any();
         let k = <V as HasKey<Public>>::decode(&b);
+        let mut accepted = false;
         if let Some(k) = forget(k) {
             let e = <V as HasKey<Public>>::encode(&k);
             assert!(e.len() == 49, "an accepted public key does not encode to 49 bytes");
             core::mem::forget(e);
             core::mem::forget(k);
-            kani::cover!(true, "some key of this length is accepted");
+            accepted = true;
         }
+        // witness: some key of this length is accepted — except for one-byte strings, which are never
+        // public keys (00 is the point at infinity)
+        kani::cover!(accepted || N == 1, "accept reachable (or length 1, where nothing may be accepted)");
     }
     fn public_key_usable<const N: usize>() {
         let b: [u8; N] = kani::any();
